@@ -374,6 +374,21 @@ func (t *stubT) Failed() bool                      { return t.failed }
 func (t *stubT) Name() string                      { return "stub" }
 func (t *stubT) FailNow()                          { t.failed = true }
 
+// c13ShortSink takes at most half of what it is given (at least one byte) and reports no error.
+type c13ShortSink struct{}
+
+func (c13ShortSink) Write(p []byte) (int, error) {
+	if len(p) <= 1 {
+		return len(p), nil
+	}
+	return len(p) / 2, nil
+}
+
+// c13FailSink takes a third and fails.
+type c13FailSink struct{}
+
+func (c13FailSink) Write(p []byte) (int, error) { return len(p) / 3, fmt.Errorf("write: no space left on device") }
+
 func payloadOf(class string, seed int64) []byte {
 	switch class {
 	case "empty":
@@ -443,6 +458,14 @@ func replayWriter(kind, prior, class string, seed int64) (f *Finding) {
 		w = zaptest.NewTestingWriter(&stubT{})
 	case "testing-markfailed":
 		w = zaptest.NewTestingWriter(&stubT{}).WithMarkFailed(true)
+	case "bws-over-short-sink", "bws-over-failing-sink":
+		var sink zapcore.WriteSyncer = zapcore.AddSync(c13ShortSink{})
+		if kind == "bws-over-failing-sink" {
+			sink = zapcore.AddSync(c13FailSink{})
+		}
+		b := &zapcore.BufferedWriteSyncer{WS: sink, Size: 64}
+		defer b.Stop()
+		w = b
 	case "bws", "bws-stopped":
 		b := &zapcore.BufferedWriteSyncer{WS: zapcore.AddSync(io.Discard), Size: 64}
 		if kind == "bws-stopped" {
@@ -462,6 +485,13 @@ func replayWriter(kind, prior, class string, seed int64) (f *Finding) {
 		}
 	}
 	n, err := w.Write(p)
+	if strings.HasPrefix(kind, "bws-over-") {
+		// the sink misbehaves: an error is a legitimate answer, a short count without one never is
+		if n < len(p) && err == nil {
+			return &Finding{Key: "C13/writer-count:bws", What: fmt.Sprintf("%s (after %s) returned (%d, nil) for a %d-byte payload of class %s: a short count without an error", kind, prior, n, len(p), class)}
+		}
+		return nil
+	}
 	if n != len(p) || err != nil {
 		return &Finding{Key: "C13/writer-count:" + strings.SplitN(kind, "-", 2)[0], What: fmt.Sprintf("%s writer (after %s) returned (%d, %v) for a %d-byte payload of class %s it accepted in full; io.Writer requires (%d, nil)", kind, prior, n, err, len(p), class, len(p))}
 	}
